@@ -294,3 +294,39 @@ func Random(seed uint64, count int) []*Schema {
 	}
 	return out
 }
+
+// Names: field / oneof names colliding with protoreflect.Message methods, with methods of the
+// generated struct, and with identifiers the generated code uses.
+func Names() []*Schema {
+	s := corpusSchema("nm")
+	methodNames := []string{"descriptor", "type", "new", "interface", "range", "has", "clear", "get", "set", "mutable",
+		"new_field", "which_oneof", "get_unknown", "set_unknown", "is_valid", "proto_methods", "proto_reflect",
+		"reset", "string", "proto_message"}
+	n0 := Msg{Name: "N0"}
+	for i, nm := range methodNames {
+		f := Field{Num: i + 1, Name: nm, Kind: allKinds[i%len(allKinds)], Shape: Singular}
+		if i%5 == 4 {
+			f.Shape, f.Packed = Repeated, f.Kind.Packable()
+		}
+		n0.Fields = append(n0.Fields, f)
+	}
+	idents := []string{"x", "l", "n", "i", "d_at_a", "i_nd_ex", "options", "input", "size", "wire", "fd", "value", "mapkey", "mapvalue", "err", "v", "k"}
+	n1 := Msg{Name: "N1", OneofNames: []string{"type", "descriptor", "range"}}
+	n1.Fields = append(n1.Fields, Field{Num: 1, Name: "a", Kind: Int32, Shape: Oneof, Group: 0})
+	n1.Fields = append(n1.Fields, Field{Num: 2, Name: "b", Kind: String, Shape: Oneof, Group: 0})
+	n1.Fields = append(n1.Fields, Field{Num: 3, Name: "c", IsMsg: true, Msg: 0, Shape: Oneof, Group: 1})
+	n1.Fields = append(n1.Fields, Field{Num: 4, Name: "d", Kind: Sint64, Shape: Oneof, Group: 1})
+	n1.Fields = append(n1.Fields, Field{Num: 5, Name: "e", Kind: Bytes, Shape: Oneof, Group: 2})
+	for i, nm := range idents {
+		f := Field{Num: 10 + i, Name: nm, Kind: allKinds[(i*3)%len(allKinds)], Shape: Singular}
+		if i%4 == 1 {
+			f.Shape, f.Key = Map, String
+		}
+		if i%4 == 2 {
+			f.Shape, f.Packed = Repeated, f.Kind.Packable()
+		}
+		n1.Fields = append(n1.Fields, f)
+	}
+	s.Msgs = []Msg{n0, n1}
+	return []*Schema{s}
+}
